@@ -640,6 +640,8 @@ class PCBO(PUBO):
         # use self.__class__ here because PCSO uses this code as well.
         d = super(self.__class__, self).__round__(ndigits)
         d._constraints = self.constraints
+        # the rounded model still contains the ancillas of its constraints
+        d._ancilla = self._ancilla
         return d
 
     # override
@@ -666,6 +668,8 @@ class PCBO(PUBO):
             k: [P.subs(*args, **kwargs) for P in v]
             for k, v in self._constraints.items()
         }
+        # the new model still contains the ancillas of its constraints
+        d._ancilla = self._ancilla
         return d
 
     def add_constraint_eq_zero(self,
